@@ -10,8 +10,11 @@ Both take-backs of `compWriteLocking` are blind (`SetReadOnly`: `select { case <
 * in runs without corruption errors (`step_exactJ`): then `compactionError` enters `hasperr` only through a
   `SetReadOnly` that hands its token over, so that no `SetReadOnly` is between its two `select`s while the
   machine is in `hasperr` (`ExactJ`).
-With a corruption error the two can both be poised to take the one token back; see `Props/C09.lean`,
-`write_lock_lost`. -/
+Before 832d000, with a corruption error the two could both be poised to take the one token back; see
+`Props/C09.lean`, `write_lock_lost`.  Since 832d000 (`Cfg.HandsOver`) `compWriteLocking` is set only by
+`compactionError` itself — when it takes `ErrReadOnly` from a `SetReadOnly` that thereby hands its token over,
+or when it puts its own token into `writeLockC` — and a `SetReadOnly` that gives up takes its own token back:
+the accounting is exact in every run (`step_exactH`). -/
 namespace GoLevel.Locks
 open CompErr
 set_option linter.unusedSimpArgs false
@@ -20,19 +23,21 @@ set_option linter.unusedSimpArgs false
 theorem step_closed (cfg : Cfg) (s t : St) (f : Bool) (h : Step cfg f s t) (hc : s.closed = true) : t.closed = true := by
   cases h <;> (try simp only [St.setDone, St.setBg]) <;> (repeat' split) <;> simp_all
 
-/-- while the DB is open the accounting of the token is exact -/
-def OpenE (s : St) : Prop := s.closed = false → TokE s
-
 theorem step_openE (cfg : Cfg) (h3 : Fixed3 cfg) (s t : St) (f : Bool)
-    (h4 : cfg.setReadOnlyReleasesOnClose = true ∨ NoSR s) (ia : PInvA s) (h : Step cfg f s t) (inv : OpenE s) : OpenE t := by
+    (h4 : cfg.setReadOnlyReleasesOnClose = true ∨ NoSR s) (ia : PInvA s) (ie : PInvE s) (h : Step cfg f s t)
+    (inv : OpenE s) : OpenE t := by
   intro hc
   have hcs : s.closed = false := by
     cases hs : s.closed with
     | false => rfl
     | true => rw [step_closed cfg s t f h hs] at hc; cases hc
-  refine step_tokE s t f cfg h3 h4 (fun h => by rw [hcs] at h; cases h) (fun h => ?_) h (inv hcs)
-  have := ia.2.2.2.1 h
-  rw [hcs] at this; cases this
+  refine step_tokE s t f cfg h3 h4 (fun hp => ?_) (fun h => ?_) h (inv hcs)
+  · have := ie.1 hcs
+    cases hk : s.ehTok with
+    | true => rfl
+    | false => rw [hk] at this; simp only [b2n_false] at this; omega
+  · have := ia.2.2.2.1 h
+    rw [hcs] at this; cases this
 
 /-- in runs without corruption errors: `compactionError` in (or leaving) `hasperr` has the token and no
 `SetReadOnly` is between its two `select`s; a `SetReadOnly` between its two `select`s has its token -/
@@ -431,7 +436,7 @@ def ExactJ (s : St) : Prop := TokE s ∧ JInv s ∧ NoCorr s
 theorem step_exactJ (cfg : Cfg) (h3 : Fixed3 cfg) (hm : cfg.m = .asCoded) (s t : St) (f : Bool)
     (h4 : cfg.setReadOnlyReleasesOnClose = true ∨ NoSR s) (h : Step cfg f s t) (inv : ExactJ s) : ExactJ t := by
   obtain ⟨hE, hJ, hN⟩ := inv
-  refine ⟨step_tokE s t f cfg h3 h4 (fun _ hp => ?_) (fun hc => (hJ.1 (Or.inr hc)).1) h hE,
+  refine ⟨step_tokE s t f cfg h3 h4 (fun hp => ?_) (fun hc => (hJ.1 (Or.inr hc)).1) h hE,
     step_jinv s t f cfg hm h4 hN hE h hJ, step_noCorr cfg s t f h hN⟩
   have := hJ.2
   cases he : s.ehTok with
@@ -635,5 +640,330 @@ theorem noSR_closing (cfg : Cfg) (hm : cfg.m = .asCoded) (s : St) (hr : Reachabl
   intro hc
   have k := (key s hs).2
   exact k.1 (by rw [hc]; simp) (k.2 hc)
+
+/-- since 832d000 (`Cfg.HandsOver`), in every run: when `compWriteLocking` is set and `compactionError` has not
+returned, its token is in `writeLockC` and no `SetReadOnly` is between its two `select`s; a `SetReadOnly` between
+its two `select`s (at most one) has its token there; the machine is in its `closeC` case only with
+`compWriteLocking` set -/
+def HInv (s : St) : Prop :=
+  (s.cwl = true → s.eh ≠ .exited → s.ehTok = true ∧ tot srW s.ws = 0) ∧ tot srW s.ws ≤ b2n s.ehTok ∧
+  (s.eh = .closing → s.cwl = true)
+
+theorem step_hinv (s t : St) (f : Bool) (cfg : Cfg) (hm : cfg.m = .asCoded) (hh : cfg.HandsOver)
+    (h4 : cfg.setReadOnlyReleasesOnClose = true) (hE : TokE s) (h : Step cfg f s t) (inv : HInv s) : HInv t := by
+  unfold HInv TokE at *
+  obtain ⟨k1, k2, k3⟩ := inv
+  obtain ⟨s1, s2, s3, s4⟩ := hh
+  have c1 := b2n_le s.trOpen
+  have c2 := b2n_le s.ehTok
+  have c3 := b2n_le s.closeTok
+  have c4 := b2n_le s.tok
+  cases h with
+  | startPut _ i hi =>
+    have l0 := le_tot srW _ _ _ hi
+    have l1 := le_tot tokW _ _ _ hi
+    (try simp only [St.setDone, St.setBg, ↓reduceIte, Bool.false_eq_true, Bool.and_false, Bool.and_true, Bool.false_and, Bool.true_and]) <;> (repeat' split) <;> simp_all [tot_set_eq _ _ _ _ _ hi, tot_ackWs_srw', tot_ackWs_tok, b2n_true, b2n_false, srW, tokW, St.bg, onOk, onErr, selNext, afterSetErr, srAllW, nextC, roSets] <;> (try omega) <;> (try (cases hk : s.ehTok <;> cases hk2 : s.cwl <;> simp_all [b2n_true, b2n_false] <;> omega))
+  | startWrite _ i hi =>
+    have l0 := le_tot srW _ _ _ hi
+    have l1 := le_tot tokW _ _ _ hi
+    (try simp only [St.setDone, St.setBg, ↓reduceIte, Bool.false_eq_true, Bool.and_false, Bool.and_true, Bool.false_and, Bool.true_and]) <;> (repeat' split) <;> simp_all [tot_set_eq _ _ _ _ _ hi, tot_ackWs_srw', tot_ackWs_tok, b2n_true, b2n_false, srW, tokW, St.bg, onOk, onErr, selNext, afterSetErr, srAllW, nextC, roSets] <;> (try omega) <;> (try (cases hk : s.ehTok <;> cases hk2 : s.cwl <;> simp_all [b2n_true, b2n_false] <;> omega))
+  | startOtx _ i hi =>
+    have l0 := le_tot srW _ _ _ hi
+    have l1 := le_tot tokW _ _ _ hi
+    (try simp only [St.setDone, St.setBg, ↓reduceIte, Bool.false_eq_true, Bool.and_false, Bool.and_true, Bool.false_and, Bool.true_and]) <;> (repeat' split) <;> simp_all [tot_set_eq _ _ _ _ _ hi, tot_ackWs_srw', tot_ackWs_tok, b2n_true, b2n_false, srW, tokW, St.bg, onOk, onErr, selNext, afterSetErr, srAllW, nextC, roSets] <;> (try omega) <;> (try (cases hk : s.ehTok <;> cases hk2 : s.cwl <;> simp_all [b2n_true, b2n_false] <;> omega))
+  | startCommit _ i hi hu =>
+    have l0 := le_tot srW _ _ _ hi
+    have l1 := le_tot tokW _ _ _ hi
+    (try simp only [St.setDone, St.setBg, ↓reduceIte, Bool.false_eq_true, Bool.and_false, Bool.and_true, Bool.false_and, Bool.true_and]) <;> (repeat' split) <;> simp_all [tot_set_eq _ _ _ _ _ hi, tot_ackWs_srw', tot_ackWs_tok, b2n_true, b2n_false, srW, tokW, St.bg, onOk, onErr, selNext, afterSetErr, srAllW, nextC, roSets] <;> (try omega) <;> (try (cases hk : s.ehTok <;> cases hk2 : s.cwl <;> simp_all [b2n_true, b2n_false] <;> omega))
+  | startDiscard _ i hi hu =>
+    have l0 := le_tot srW _ _ _ hi
+    have l1 := le_tot tokW _ _ _ hi
+    (try simp only [St.setDone, St.setBg, ↓reduceIte, Bool.false_eq_true, Bool.and_false, Bool.and_true, Bool.false_and, Bool.true_and]) <;> (repeat' split) <;> simp_all [tot_set_eq _ _ _ _ _ hi, tot_ackWs_srw', tot_ackWs_tok, b2n_true, b2n_false, srW, tokW, St.bg, onOk, onErr, selNext, afterSetErr, srAllW, nextC, roSets] <;> (try omega) <;> (try (cases hk : s.ehTok <;> cases hk2 : s.cwl <;> simp_all [b2n_true, b2n_false] <;> omega))
+  | startCR _ i hi =>
+    have l0 := le_tot srW _ _ _ hi
+    have l1 := le_tot tokW _ _ _ hi
+    (try simp only [St.setDone, St.setBg, ↓reduceIte, Bool.false_eq_true, Bool.and_false, Bool.and_true, Bool.false_and, Bool.true_and]) <;> (repeat' split) <;> simp_all [tot_set_eq _ _ _ _ _ hi, tot_ackWs_srw', tot_ackWs_tok, b2n_true, b2n_false, srW, tokW, St.bg, onOk, onErr, selNext, afterSetErr, srAllW, nextC, roSets] <;> (try omega) <;> (try (cases hk : s.ehTok <;> cases hk2 : s.cwl <;> simp_all [b2n_true, b2n_false] <;> omega))
+  | startSR _ i hi ha =>
+    have l0 := le_tot srW _ _ _ hi
+    have l1 := le_tot tokW _ _ _ hi
+    (try simp only [St.setDone, St.setBg, ↓reduceIte, Bool.false_eq_true, Bool.and_false, Bool.and_true, Bool.false_and, Bool.true_and]) <;> (repeat' split) <;> simp_all [tot_set_eq _ _ _ _ _ hi, tot_ackWs_srw', tot_ackWs_tok, b2n_true, b2n_false, srW, tokW, St.bg, onOk, onErr, selNext, afterSetErr, srAllW, nextC, roSets] <;> (try omega) <;> (try (cases hk : s.ehTok <;> cases hk2 : s.cwl <;> simp_all [b2n_true, b2n_false] <;> omega))
+  | startClose _ i hi =>
+    have l0 := le_tot srW _ _ _ hi
+    have l1 := le_tot tokW _ _ _ hi
+    (try simp only [St.setDone, St.setBg, ↓reduceIte, Bool.false_eq_true, Bool.and_false, Bool.and_true, Bool.false_and, Bool.true_and]) <;> (repeat' split) <;> simp_all [tot_set_eq _ _ _ _ _ hi, tot_ackWs_srw', tot_ackWs_tok, b2n_true, b2n_false, srW, tokW, St.bg, onOk, onErr, selNext, afterSetErr, srAllW, nextC, roSets] <;> (try omega) <;> (try (cases hk : s.ehTok <;> cases hk2 : s.cwl <;> simp_all [b2n_true, b2n_false] <;> omega))
+  | selTok _ i p q hi hq ht =>
+    have l0 := le_tot srW _ _ _ hi
+    have l1 := le_tot tokW _ _ _ hi
+    cases hk : s.ehTok <;> cases hk2 : s.cwl <;> simp only [hk, hk2, b2n_true, b2n_false] at hE k1 k2 <;> cases p <;> simp only [selNext] at hq <;> (try contradiction) <;> cases hq <;> simp_all [tot_set_eq _ _ _ _ _ hi, tot_ackWs_srw', tot_ackWs_tok, b2n_true, b2n_false, srW, tokW, St.bg, onOk, onErr, selNext, afterSetErr, srAllW, nextC, roSets] <;> (try omega) <;> (try (cases hk : s.ehTok <;> cases hk2 : s.cwl <;> simp_all [b2n_true, b2n_false] <;> omega))
+  | selPerErr _ i p q hi hq he =>
+    have l0 := le_tot srW _ _ _ hi
+    have l1 := le_tot tokW _ _ _ hi
+    cases p <;> simp only [selNext] at hq <;> (try contradiction) <;> cases hq <;> simp_all [tot_set_eq _ _ _ _ _ hi, tot_ackWs_srw', tot_ackWs_tok, b2n_true, b2n_false, srW, tokW, St.bg, onOk, onErr, selNext, afterSetErr, srAllW, nextC, roSets] <;> (try omega) <;> (try (cases hk : s.ehTok <;> cases hk2 : s.cwl <;> simp_all [b2n_true, b2n_false] <;> omega))
+  | selClosed _ i p q hi hq hc =>
+    have l0 := le_tot srW _ _ _ hi
+    have l1 := le_tot tokW _ _ _ hi
+    cases p <;> simp only [selNext] at hq <;> (try contradiction) <;> cases hq <;> simp_all [tot_set_eq _ _ _ _ _ hi, tot_ackWs_srw', tot_ackWs_tok, b2n_true, b2n_false, srW, tokW, St.bg, onOk, onErr, selNext, afterSetErr, srAllW, nextC, roSets] <;> (try omega) <;> (try (cases hk : s.ehTok <;> cases hk2 : s.cwl <;> simp_all [b2n_true, b2n_false] <;> omega))
+  | putNoWait _ i hi =>
+    have l0 := le_tot srW _ _ _ hi
+    have l1 := le_tot tokW _ _ _ hi
+    (try simp only [St.setDone, St.setBg, ↓reduceIte, Bool.false_eq_true, Bool.and_false, Bool.and_true, Bool.false_and, Bool.true_and]) <;> (repeat' split) <;> simp_all [tot_set_eq _ _ _ _ _ hi, tot_ackWs_srw', tot_ackWs_tok, b2n_true, b2n_false, srW, tokW, St.bg, onOk, onErr, selNext, afterSetErr, srAllW, nextC, roSets] <;> (try omega) <;> (try (cases hk : s.ehTok <;> cases hk2 : s.cwl <;> simp_all [b2n_true, b2n_false] <;> omega))
+  | putWait _ i b hi =>
+    have l0 := le_tot srW _ _ _ hi
+    have l1 := le_tot tokW _ _ _ hi
+    cases b <;> (try simp only [St.setDone, St.setBg, ↓reduceIte, Bool.false_eq_true, Bool.and_false, Bool.and_true, Bool.false_and, Bool.true_and]) <;> (repeat' split) <;> simp_all [tot_set_eq _ _ _ _ _ hi, tot_ackWs_srw', tot_ackWs_tok, b2n_true, b2n_false, srW, tokW, St.bg, onOk, onErr, selNext, afterSetErr, srAllW, nextC, roSets] <;> (try omega) <;> (try (cases hk : s.ehTok <;> cases hk2 : s.cwl <;> simp_all [b2n_true, b2n_false] <;> omega))
+  | putJournalOk _ i hi =>
+    have l0 := le_tot srW _ _ _ hi
+    have l1 := le_tot tokW _ _ _ hi
+    (try simp only [St.setDone, St.setBg, ↓reduceIte, Bool.false_eq_true, Bool.and_false, Bool.and_true, Bool.false_and, Bool.true_and]) <;> (repeat' split) <;> simp_all [tot_set_eq _ _ _ _ _ hi, tot_ackWs_srw', tot_ackWs_tok, b2n_true, b2n_false, srW, tokW, St.bg, onOk, onErr, selNext, afterSetErr, srAllW, nextC, roSets] <;> (try omega) <;> (try (cases hk : s.ehTok <;> cases hk2 : s.cwl <;> simp_all [b2n_true, b2n_false] <;> omega))
+  | putJournalFail _ i hi =>
+    have l0 := le_tot srW _ _ _ hi
+    have l1 := le_tot tokW _ _ _ hi
+    (try simp only [St.setDone, St.setBg, ↓reduceIte, Bool.false_eq_true, Bool.and_false, Bool.and_true, Bool.false_and, Bool.true_and]) <;> (repeat' split) <;> simp_all [tot_set_eq _ _ _ _ _ hi, tot_ackWs_srw', tot_ackWs_tok, b2n_true, b2n_false, srW, tokW, St.bg, onOk, onErr, selNext, afterSetErr, srAllW, nextC, roSets] <;> (try omega) <;> (try (cases hk : s.ehTok <;> cases hk2 : s.cwl <;> simp_all [b2n_true, b2n_false] <;> omega))
+  | putUnlock _ i r hi =>
+    have l0 := le_tot srW _ _ _ hi
+    have l1 := le_tot tokW _ _ _ hi
+    cases r <;> (try simp only [St.setDone, St.setBg, ↓reduceIte, Bool.false_eq_true, Bool.and_false, Bool.and_true, Bool.false_and, Bool.true_and]) <;> (repeat' split) <;> simp_all [tot_set_eq _ _ _ _ _ hi, tot_ackWs_srw', tot_ackWs_tok, b2n_true, b2n_false, srW, tokW, St.bg, onOk, onErr, selNext, afterSetErr, srAllW, nextC, roSets] <;> (try omega) <;> (try (cases hk : s.ehTok <;> cases hk2 : s.cwl <;> simp_all [b2n_true, b2n_false] <;> omega))
+  | cwSendGo _ i b site lg hi hb hro =>
+    have l0 := le_tot srW _ _ _ hi
+    have l1 := le_tot tokW _ _ _ hi
+    cases site <;> cases b <;> cases lg <;> (try simp only [St.setDone, St.setBg, ↓reduceIte, Bool.false_eq_true, Bool.and_false, Bool.and_true, Bool.false_and, Bool.true_and]) <;> (repeat' split) <;> simp_all [tot_set_eq _ _ _ _ _ hi, tot_ackWs_srw', tot_ackWs_tok, b2n_true, b2n_false, srW, tokW, St.bg, onOk, onErr, selNext, afterSetErr, srAllW, nextC, roSets] <;> (try omega) <;> (try (cases hk : s.ehTok <;> cases hk2 : s.cwl <;> simp_all [b2n_true, b2n_false] <;> omega))
+  | cwSendRO _ i site lg hi hb hp hro =>
+    have l0 := le_tot srW _ _ _ hi
+    have l1 := le_tot tokW _ _ _ hi
+    cases site <;> cases lg <;> (try simp only [St.setDone, St.setBg, ↓reduceIte, Bool.false_eq_true, Bool.and_false, Bool.and_true, Bool.false_and, Bool.true_and]) <;> (repeat' split) <;> simp_all [tot_set_eq _ _ _ _ _ hi, tot_ackWs_srw', tot_ackWs_tok, b2n_true, b2n_false, srW, tokW, St.bg, onOk, onErr, selNext, afterSetErr, srAllW, nextC, roSets] <;> (try omega) <;> (try (cases hk : s.ehTok <;> cases hk2 : s.cwl <;> simp_all [b2n_true, b2n_false] <;> omega))
+  | cwSendErr _ i b site lg hi he =>
+    have l0 := le_tot srW _ _ _ hi
+    have l1 := le_tot tokW _ _ _ hi
+    cases site <;> cases b <;> cases lg <;> (try simp only [St.setDone, St.setBg, ↓reduceIte, Bool.false_eq_true, Bool.and_false, Bool.and_true, Bool.false_and, Bool.true_and]) <;> (repeat' split) <;> simp_all [tot_set_eq _ _ _ _ _ hi, tot_ackWs_srw', tot_ackWs_tok, b2n_true, b2n_false, srW, tokW, St.bg, onOk, onErr, selNext, afterSetErr, srAllW, nextC, roSets] <;> (try omega) <;> (try (cases hk : s.ehTok <;> cases hk2 : s.cwl <;> simp_all [b2n_true, b2n_false] <;> omega))
+  | cwAckErr _ i b site lg hi he =>
+    have l0 := le_tot srW _ _ _ hi
+    have l1 := le_tot tokW _ _ _ hi
+    cases site <;> cases b <;> cases lg <;> (try simp only [St.setDone, St.setBg, ↓reduceIte, Bool.false_eq_true, Bool.and_false, Bool.and_true, Bool.false_and, Bool.true_and]) <;> (repeat' split) <;> simp_all [tot_set_eq _ _ _ _ _ hi, tot_ackWs_srw', tot_ackWs_tok, b2n_true, b2n_false, srW, tokW, St.bg, onOk, onErr, selNext, afterSetErr, srAllW, nextC, roSets] <;> (try omega) <;> (try (cases hk : s.ehTok <;> cases hk2 : s.cwl <;> simp_all [b2n_true, b2n_false] <;> omega))
+  | otxRotate _ i lg hi =>
+    have l0 := le_tot srW _ _ _ hi
+    have l1 := le_tot tokW _ _ _ hi
+    cases lg <;> (try simp only [St.setDone, St.setBg, ↓reduceIte, Bool.false_eq_true, Bool.and_false, Bool.and_true, Bool.false_and, Bool.true_and]) <;> (repeat' split) <;> simp_all [tot_set_eq _ _ _ _ _ hi, tot_ackWs_srw', tot_ackWs_tok, b2n_true, b2n_false, srW, tokW, St.bg, onOk, onErr, selNext, afterSetErr, srAllW, nextC, roSets] <;> (try omega) <;> (try (cases hk : s.ehTok <;> cases hk2 : s.cwl <;> simp_all [b2n_true, b2n_false] <;> omega))
+  | otxNoRotate _ i lg hi =>
+    have l0 := le_tot srW _ _ _ hi
+    have l1 := le_tot tokW _ _ _ hi
+    cases lg <;> (try simp only [St.setDone, St.setBg, ↓reduceIte, Bool.false_eq_true, Bool.and_false, Bool.and_true, Bool.false_and, Bool.true_and]) <;> (repeat' split) <;> simp_all [tot_set_eq _ _ _ _ _ hi, tot_ackWs_srw', tot_ackWs_tok, b2n_true, b2n_false, srW, tokW, St.bg, onOk, onErr, selNext, afterSetErr, srAllW, nextC, roSets] <;> (try omega) <;> (try (cases hk : s.ehTok <;> cases hk2 : s.cwl <;> simp_all [b2n_true, b2n_false] <;> omega))
+  | otxNewMemOk _ i lg hi =>
+    have l0 := le_tot srW _ _ _ hi
+    have l1 := le_tot tokW _ _ _ hi
+    cases lg <;> (try simp only [St.setDone, St.setBg, ↓reduceIte, Bool.false_eq_true, Bool.and_false, Bool.and_true, Bool.false_and, Bool.true_and]) <;> (repeat' split) <;> simp_all [tot_set_eq _ _ _ _ _ hi, tot_ackWs_srw', tot_ackWs_tok, b2n_true, b2n_false, srW, tokW, St.bg, onOk, onErr, selNext, afterSetErr, srAllW, nextC, roSets] <;> (try omega) <;> (try (cases hk : s.ehTok <;> cases hk2 : s.cwl <;> simp_all [b2n_true, b2n_false] <;> omega))
+  | otxNewMemFail _ i lg hi =>
+    have l0 := le_tot srW _ _ _ hi
+    have l1 := le_tot tokW _ _ _ hi
+    cases lg <;> (try simp only [St.setDone, St.setBg, ↓reduceIte, Bool.false_eq_true, Bool.and_false, Bool.and_true, Bool.false_and, Bool.true_and]) <;> (repeat' split) <;> simp_all [tot_set_eq _ _ _ _ _ hi, tot_ackWs_srw', tot_ackWs_tok, b2n_true, b2n_false, srW, tokW, St.bg, onOk, onErr, selNext, afterSetErr, srAllW, nextC, roSets] <;> (try omega) <;> (try (cases hk : s.ehTok <;> cases hk2 : s.cwl <;> simp_all [b2n_true, b2n_false] <;> omega))
+  | otxNoWaitComp _ i lg hi =>
+    have l0 := le_tot srW _ _ _ hi
+    have l1 := le_tot tokW _ _ _ hi
+    cases lg <;> (try simp only [St.setDone, St.setBg, ↓reduceIte, Bool.false_eq_true, Bool.and_false, Bool.and_true, Bool.false_and, Bool.true_and]) <;> (repeat' split) <;> simp_all [tot_set_eq _ _ _ _ _ hi, tot_ackWs_srw', tot_ackWs_tok, b2n_true, b2n_false, srW, tokW, St.bg, onOk, onErr, selNext, afterSetErr, srAllW, nextC, roSets] <;> (try omega) <;> (try (cases hk : s.ehTok <;> cases hk2 : s.cwl <;> simp_all [b2n_true, b2n_false] <;> omega))
+  | otxWaitComp _ i lg hi =>
+    have l0 := le_tot srW _ _ _ hi
+    have l1 := le_tot tokW _ _ _ hi
+    cases lg <;> (try simp only [St.setDone, St.setBg, ↓reduceIte, Bool.false_eq_true, Bool.and_false, Bool.and_true, Bool.false_and, Bool.true_and]) <;> (repeat' split) <;> simp_all [tot_set_eq _ _ _ _ _ hi, tot_ackWs_srw', tot_ackWs_tok, b2n_true, b2n_false, srW, tokW, St.bg, onOk, onErr, selNext, afterSetErr, srAllW, nextC, roSets] <;> (try omega) <;> (try (cases hk : s.ehTok <;> cases hk2 : s.cwl <;> simp_all [b2n_true, b2n_false] <;> omega))
+  | otxFail _ i lg hi =>
+    have l0 := le_tot srW _ _ _ hi
+    have l1 := le_tot tokW _ _ _ hi
+    cases lg <;> (try simp only [St.setDone, St.setBg, ↓reduceIte, Bool.false_eq_true, Bool.and_false, Bool.and_true, Bool.false_and, Bool.true_and]) <;> (repeat' split) <;> simp_all [tot_set_eq _ _ _ _ _ hi, tot_ackWs_srw', tot_ackWs_tok, b2n_true, b2n_false, srW, tokW, St.bg, onOk, onErr, selNext, afterSetErr, srAllW, nextC, roSets] <;> (try omega) <;> (try (cases hk : s.ehTok <;> cases hk2 : s.cwl <;> simp_all [b2n_true, b2n_false] <;> omega))
+  | otxRel _ i lg hi =>
+    have l0 := le_tot srW _ _ _ hi
+    have l1 := le_tot tokW _ _ _ hi
+    cases lg <;> (try simp only [St.setDone, St.setBg, ↓reduceIte, Bool.false_eq_true, Bool.and_false, Bool.and_true, Bool.false_and, Bool.true_and]) <;> (repeat' split) <;> simp_all [tot_set_eq _ _ _ _ _ hi, tot_ackWs_srw', tot_ackWs_tok, b2n_true, b2n_false, srW, tokW, St.bg, onOk, onErr, selNext, afterSetErr, srAllW, nextC, roSets] <;> (try omega) <;> (try (cases hk : s.ehTok <;> cases hk2 : s.cwl <;> simp_all [b2n_true, b2n_false] <;> omega))
+  | otxDone _ i lg hi =>
+    have l0 := le_tot srW _ _ _ hi
+    have l1 := le_tot tokW _ _ _ hi
+    cases lg <;> (try simp only [St.setDone, St.setBg, ↓reduceIte, Bool.false_eq_true, Bool.and_false, Bool.and_true, Bool.false_and, Bool.true_and]) <;> (repeat' split) <;> simp_all [tot_set_eq _ _ _ _ _ hi, tot_ackWs_srw', tot_ackWs_tok, b2n_true, b2n_false, srW, tokW, St.bg, onOk, onErr, selNext, afterSetErr, srAllW, nextC, roSets] <;> (try omega) <;> (try (cases hk : s.ehTok <;> cases hk2 : s.cwl <;> simp_all [b2n_true, b2n_false] <;> omega))
+  | lgWriteOk _ i hi =>
+    have l0 := le_tot srW _ _ _ hi
+    have l1 := le_tot tokW _ _ _ hi
+    (try simp only [St.setDone, St.setBg, ↓reduceIte, Bool.false_eq_true, Bool.and_false, Bool.and_true, Bool.false_and, Bool.true_and]) <;> (repeat' split) <;> simp_all [tot_set_eq _ _ _ _ _ hi, tot_ackWs_srw', tot_ackWs_tok, b2n_true, b2n_false, srW, tokW, St.bg, onOk, onErr, selNext, afterSetErr, srAllW, nextC, roSets] <;> (try omega) <;> (try (cases hk : s.ehTok <;> cases hk2 : s.cwl <;> simp_all [b2n_true, b2n_false] <;> omega))
+  | lgWriteFail _ i hi =>
+    have l0 := le_tot srW _ _ _ hi
+    have l1 := le_tot tokW _ _ _ hi
+    (try simp only [St.setDone, St.setBg, ↓reduceIte, Bool.false_eq_true, Bool.and_false, Bool.and_true, Bool.false_and, Bool.true_and]) <;> (repeat' split) <;> simp_all [tot_set_eq _ _ _ _ _ hi, tot_ackWs_srw', tot_ackWs_tok, b2n_true, b2n_false, srW, tokW, St.bg, onOk, onErr, selNext, afterSetErr, srAllW, nextC, roSets] <;> (try omega) <;> (try (cases hk : s.ehTok <;> cases hk2 : s.cwl <;> simp_all [b2n_true, b2n_false] <;> omega))
+  | cmLockTr _ i lg hi hl =>
+    have l0 := le_tot srW _ _ _ hi
+    have l1 := le_tot tokW _ _ _ hi
+    cases lg <;> (try simp only [St.setDone, St.setBg, ↓reduceIte, Bool.false_eq_true, Bool.and_false, Bool.and_true, Bool.false_and, Bool.true_and]) <;> (repeat' split) <;> simp_all [tot_set_eq _ _ _ _ _ hi, tot_ackWs_srw', tot_ackWs_tok, b2n_true, b2n_false, srW, tokW, St.bg, onOk, onErr, selNext, afterSetErr, srAllW, nextC, roSets] <;> (try omega) <;> (try (cases hk : s.ehTok <;> cases hk2 : s.cwl <;> simp_all [b2n_true, b2n_false] <;> omega))
+  | cmFlushOk _ i lg hi =>
+    have l0 := le_tot srW _ _ _ hi
+    have l1 := le_tot tokW _ _ _ hi
+    cases lg <;> (try simp only [St.setDone, St.setBg, ↓reduceIte, Bool.false_eq_true, Bool.and_false, Bool.and_true, Bool.false_and, Bool.true_and]) <;> (repeat' split) <;> simp_all [tot_set_eq _ _ _ _ _ hi, tot_ackWs_srw', tot_ackWs_tok, b2n_true, b2n_false, srW, tokW, St.bg, onOk, onErr, selNext, afterSetErr, srAllW, nextC, roSets] <;> (try omega) <;> (try (cases hk : s.ehTok <;> cases hk2 : s.cwl <;> simp_all [b2n_true, b2n_false] <;> omega))
+  | cmFlushEmpty _ i lg hi =>
+    have l0 := le_tot srW _ _ _ hi
+    have l1 := le_tot tokW _ _ _ hi
+    cases lg <;> (try simp only [St.setDone, St.setBg, ↓reduceIte, Bool.false_eq_true, Bool.and_false, Bool.and_true, Bool.false_and, Bool.true_and]) <;> (repeat' split) <;> simp_all [tot_set_eq _ _ _ _ _ hi, tot_ackWs_srw', tot_ackWs_tok, b2n_true, b2n_false, srW, tokW, St.bg, onOk, onErr, selNext, afterSetErr, srAllW, nextC, roSets] <;> (try omega) <;> (try (cases hk : s.ehTok <;> cases hk2 : s.cwl <;> simp_all [b2n_true, b2n_false] <;> omega))
+  | cmFlushFail _ i lg hi =>
+    have l0 := le_tot srW _ _ _ hi
+    have l1 := le_tot tokW _ _ _ hi
+    cases lg <;> (try simp only [St.setDone, St.setBg, ↓reduceIte, Bool.false_eq_true, Bool.and_false, Bool.and_true, Bool.false_and, Bool.true_and]) <;> (repeat' split) <;> simp_all [tot_set_eq _ _ _ _ _ hi, tot_ackWs_srw', tot_ackWs_tok, b2n_true, b2n_false, srW, tokW, St.bg, onOk, onErr, selNext, afterSetErr, srAllW, nextC, roSets] <;> (try omega) <;> (try (cases hk : s.ehTok <;> cases hk2 : s.cwl <;> simp_all [b2n_true, b2n_false] <;> omega))
+  | cmLockClk _ i lg hi hl =>
+    have l0 := le_tot srW _ _ _ hi
+    have l1 := le_tot tokW _ _ _ hi
+    cases lg <;> (try simp only [St.setDone, St.setBg, ↓reduceIte, Bool.false_eq_true, Bool.and_false, Bool.and_true, Bool.false_and, Bool.true_and]) <;> (repeat' split) <;> simp_all [tot_set_eq _ _ _ _ _ hi, tot_ackWs_srw', tot_ackWs_tok, b2n_true, b2n_false, srW, tokW, St.bg, onOk, onErr, selNext, afterSetErr, srAllW, nextC, roSets] <;> (try omega) <;> (try (cases hk : s.ehTok <;> cases hk2 : s.cwl <;> simp_all [b2n_true, b2n_false] <;> omega))
+  | cmTryOk _ i k lg hi =>
+    have l0 := le_tot srW _ _ _ hi
+    have l1 := le_tot tokW _ _ _ hi
+    cases lg <;> (try simp only [St.setDone, St.setBg, ↓reduceIte, Bool.false_eq_true, Bool.and_false, Bool.and_true, Bool.false_and, Bool.true_and]) <;> (repeat' split) <;> simp_all [tot_set_eq _ _ _ _ _ hi, tot_ackWs_srw', tot_ackWs_tok, b2n_true, b2n_false, srW, tokW, St.bg, onOk, onErr, selNext, afterSetErr, srAllW, nextC, roSets] <;> (try omega) <;> (try (cases hk : s.ehTok <;> cases hk2 : s.cwl <;> simp_all [b2n_true, b2n_false] <;> omega))
+  | cmTryFail _ i k lg hi =>
+    have l0 := le_tot srW _ _ _ hi
+    have l1 := le_tot tokW _ _ _ hi
+    cases lg <;> (try simp only [St.setDone, St.setBg, ↓reduceIte, Bool.false_eq_true, Bool.and_false, Bool.and_true, Bool.false_and, Bool.true_and]) <;> (repeat' split) <;> simp_all [tot_set_eq _ _ _ _ _ hi, tot_ackWs_srw', tot_ackWs_tok, b2n_true, b2n_false, srW, tokW, St.bg, onOk, onErr, selNext, afterSetErr, srAllW, nextC, roSets] <;> (try omega) <;> (try (cases hk : s.ehTok <;> cases hk2 : s.cwl <;> simp_all [b2n_true, b2n_false] <;> omega))
+  | cmSleepTimer _ i k lg hi =>
+    have l0 := le_tot srW _ _ _ hi
+    have l1 := le_tot tokW _ _ _ hi
+    cases lg <;> (try simp only [St.setDone, St.setBg, ↓reduceIte, Bool.false_eq_true, Bool.and_false, Bool.and_true, Bool.false_and, Bool.true_and]) <;> (repeat' split) <;> simp_all [tot_set_eq _ _ _ _ _ hi, tot_ackWs_srw', tot_ackWs_tok, b2n_true, b2n_false, srW, tokW, St.bg, onOk, onErr, selNext, afterSetErr, srAllW, nextC, roSets] <;> (try omega) <;> (try (cases hk : s.ehTok <;> cases hk2 : s.cwl <;> simp_all [b2n_true, b2n_false] <;> omega))
+  | cmSleepClosed _ i k lg hi hc =>
+    have l0 := le_tot srW _ _ _ hi
+    have l1 := le_tot tokW _ _ _ hi
+    cases lg <;> (try simp only [St.setDone, St.setBg, ↓reduceIte, Bool.false_eq_true, Bool.and_false, Bool.and_true, Bool.false_and, Bool.true_and]) <;> (repeat' split) <;> simp_all [tot_set_eq _ _ _ _ _ hi, tot_ackWs_srw', tot_ackWs_tok, b2n_true, b2n_false, srW, tokW, St.bg, onOk, onErr, selNext, afterSetErr, srAllW, nextC, roSets] <;> (try omega) <;> (try (cases hk : s.ehTok <;> cases hk2 : s.cwl <;> simp_all [b2n_true, b2n_false] <;> omega))
+  | cmFail3 _ i lg hi =>
+    have l0 := le_tot srW _ _ _ hi
+    have l1 := le_tot tokW _ _ _ hi
+    cases lg <;> (try simp only [St.setDone, St.setBg, ↓reduceIte, Bool.false_eq_true, Bool.and_false, Bool.and_true, Bool.false_and, Bool.true_and]) <;> (repeat' split) <;> simp_all [tot_set_eq _ _ _ _ _ hi, tot_ackWs_srw', tot_ackWs_tok, b2n_true, b2n_false, srW, tokW, St.bg, onOk, onErr, selNext, afterSetErr, srAllW, nextC, roSets] <;> (try omega) <;> (try (cases hk : s.ehTok <;> cases hk2 : s.cwl <;> simp_all [b2n_true, b2n_false] <;> omega))
+  | cmAfterOk _ i lg hi =>
+    have l0 := le_tot srW _ _ _ hi
+    have l1 := le_tot tokW _ _ _ hi
+    cases lg <;> (try simp only [St.setDone, St.setBg, ↓reduceIte, Bool.false_eq_true, Bool.and_false, Bool.and_true, Bool.false_and, Bool.true_and]) <;> (repeat' split) <;> simp_all [tot_set_eq _ _ _ _ _ hi, tot_ackWs_srw', tot_ackWs_tok, b2n_true, b2n_false, srW, tokW, St.bg, onOk, onErr, selNext, afterSetErr, srAllW, nextC, roSets] <;> (try omega) <;> (try (cases hk : s.ehTok <;> cases hk2 : s.cwl <;> simp_all [b2n_true, b2n_false] <;> omega))
+  | cmNoWaitComp _ i lg hi =>
+    have l0 := le_tot srW _ _ _ hi
+    have l1 := le_tot tokW _ _ _ hi
+    cases lg <;> (try simp only [St.setDone, St.setBg, ↓reduceIte, Bool.false_eq_true, Bool.and_false, Bool.and_true, Bool.false_and, Bool.true_and]) <;> (repeat' split) <;> simp_all [tot_set_eq _ _ _ _ _ hi, tot_ackWs_srw', tot_ackWs_tok, b2n_true, b2n_false, srW, tokW, St.bg, onOk, onErr, selNext, afterSetErr, srAllW, nextC, roSets] <;> (try omega) <;> (try (cases hk : s.ehTok <;> cases hk2 : s.cwl <;> simp_all [b2n_true, b2n_false] <;> omega))
+  | cmWaitComp _ i lg hi =>
+    have l0 := le_tot srW _ _ _ hi
+    have l1 := le_tot tokW _ _ _ hi
+    cases lg <;> (try simp only [St.setDone, St.setBg, ↓reduceIte, Bool.false_eq_true, Bool.and_false, Bool.and_true, Bool.false_and, Bool.true_and]) <;> (repeat' split) <;> simp_all [tot_set_eq _ _ _ _ _ hi, tot_ackWs_srw', tot_ackWs_tok, b2n_true, b2n_false, srW, tokW, St.bg, onOk, onErr, selNext, afterSetErr, srAllW, nextC, roSets] <;> (try omega) <;> (try (cases hk : s.ehTok <;> cases hk2 : s.cwl <;> simp_all [b2n_true, b2n_false] <;> omega))
+  | cmDone _ i lg hi =>
+    have l0 := le_tot srW _ _ _ hi
+    have l1 := le_tot tokW _ _ _ hi
+    cases lg <;> (try simp only [St.setDone, St.setBg, ↓reduceIte, Bool.false_eq_true, Bool.and_false, Bool.and_true, Bool.false_and, Bool.true_and]) <;> (repeat' split) <;> simp_all [tot_set_eq _ _ _ _ _ hi, tot_ackWs_srw', tot_ackWs_tok, b2n_true, b2n_false, srW, tokW, St.bg, onOk, onErr, selNext, afterSetErr, srAllW, nextC, roSets] <;> (try omega) <;> (try (cases hk : s.ehTok <;> cases hk2 : s.cwl <;> simp_all [b2n_true, b2n_false] <;> omega))
+  | cmRet _ i ok lg hi =>
+    have l0 := le_tot srW _ _ _ hi
+    have l1 := le_tot tokW _ _ _ hi
+    cases ok <;> cases lg <;> (try simp only [St.setDone, St.setBg, ↓reduceIte, Bool.false_eq_true, Bool.and_false, Bool.and_true, Bool.false_and, Bool.true_and]) <;> (repeat' split) <;> simp_all [tot_set_eq _ _ _ _ _ hi, tot_ackWs_srw', tot_ackWs_tok, b2n_true, b2n_false, srW, tokW, St.bg, onOk, onErr, selNext, afterSetErr, srAllW, nextC, roSets] <;> (try omega) <;> (try (cases hk : s.ehTok <;> cases hk2 : s.cwl <;> simp_all [b2n_true, b2n_false] <;> omega))
+  | dcLockTr _ i lg hi hl =>
+    have l0 := le_tot srW _ _ _ hi
+    have l1 := le_tot tokW _ _ _ hi
+    cases lg <;> (try simp only [St.setDone, St.setBg, ↓reduceIte, Bool.false_eq_true, Bool.and_false, Bool.and_true, Bool.false_and, Bool.true_and]) <;> (repeat' split) <;> simp_all [tot_set_eq _ _ _ _ _ hi, tot_ackWs_srw', tot_ackWs_tok, b2n_true, b2n_false, srW, tokW, St.bg, onOk, onErr, selNext, afterSetErr, srAllW, nextC, roSets] <;> (try omega) <;> (try (cases hk : s.ehTok <;> cases hk2 : s.cwl <;> simp_all [b2n_true, b2n_false] <;> omega))
+  | dcBody _ i lg hi =>
+    have l0 := le_tot srW _ _ _ hi
+    have l1 := le_tot tokW _ _ _ hi
+    cases lg <;> (try simp only [St.setDone, St.setBg, ↓reduceIte, Bool.false_eq_true, Bool.and_false, Bool.and_true, Bool.false_and, Bool.true_and]) <;> (repeat' split) <;> simp_all [tot_set_eq _ _ _ _ _ hi, tot_ackWs_srw', tot_ackWs_tok, b2n_true, b2n_false, srW, tokW, St.bg, onOk, onErr, selNext, afterSetErr, srAllW, nextC, roSets] <;> (try omega) <;> (try (cases hk : s.ehTok <;> cases hk2 : s.cwl <;> simp_all [b2n_true, b2n_false] <;> omega))
+  | crNoOverlap _ i hi =>
+    have l0 := le_tot srW _ _ _ hi
+    have l1 := le_tot tokW _ _ _ hi
+    (try simp only [St.setDone, St.setBg, ↓reduceIte, Bool.false_eq_true, Bool.and_false, Bool.and_true, Bool.false_and, Bool.true_and]) <;> (repeat' split) <;> simp_all [tot_set_eq _ _ _ _ _ hi, tot_ackWs_srw', tot_ackWs_tok, b2n_true, b2n_false, srW, tokW, St.bg, onOk, onErr, selNext, afterSetErr, srAllW, nextC, roSets] <;> (try omega) <;> (try (cases hk : s.ehTok <;> cases hk2 : s.cwl <;> simp_all [b2n_true, b2n_false] <;> omega))
+  | crOverlap _ i hi =>
+    have l0 := le_tot srW _ _ _ hi
+    have l1 := le_tot tokW _ _ _ hi
+    (try simp only [St.setDone, St.setBg, ↓reduceIte, Bool.false_eq_true, Bool.and_false, Bool.and_true, Bool.false_and, Bool.true_and]) <;> (repeat' split) <;> simp_all [tot_set_eq _ _ _ _ _ hi, tot_ackWs_srw', tot_ackWs_tok, b2n_true, b2n_false, srW, tokW, St.bg, onOk, onErr, selNext, afterSetErr, srAllW, nextC, roSets] <;> (try omega) <;> (try (cases hk : s.ehTok <;> cases hk2 : s.cwl <;> simp_all [b2n_true, b2n_false] <;> omega))
+  | crNewMemOk _ i hi =>
+    have l0 := le_tot srW _ _ _ hi
+    have l1 := le_tot tokW _ _ _ hi
+    (try simp only [St.setDone, St.setBg, ↓reduceIte, Bool.false_eq_true, Bool.and_false, Bool.and_true, Bool.false_and, Bool.true_and]) <;> (repeat' split) <;> simp_all [tot_set_eq _ _ _ _ _ hi, tot_ackWs_srw', tot_ackWs_tok, b2n_true, b2n_false, srW, tokW, St.bg, onOk, onErr, selNext, afterSetErr, srAllW, nextC, roSets] <;> (try omega) <;> (try (cases hk : s.ehTok <;> cases hk2 : s.cwl <;> simp_all [b2n_true, b2n_false] <;> omega))
+  | crNewMemFail _ i hi =>
+    have l0 := le_tot srW _ _ _ hi
+    have l1 := le_tot tokW _ _ _ hi
+    (try simp only [St.setDone, St.setBg, ↓reduceIte, Bool.false_eq_true, Bool.and_false, Bool.and_true, Bool.false_and, Bool.true_and]) <;> (repeat' split) <;> simp_all [tot_set_eq _ _ _ _ _ hi, tot_ackWs_srw', tot_ackWs_tok, b2n_true, b2n_false, srW, tokW, St.bg, onOk, onErr, selNext, afterSetErr, srAllW, nextC, roSets] <;> (try omega) <;> (try (cases hk : s.ehTok <;> cases hk2 : s.cwl <;> simp_all [b2n_true, b2n_false] <;> omega))
+  | crRelM _ i hi =>
+    have l0 := le_tot srW _ _ _ hi
+    have l1 := le_tot tokW _ _ _ hi
+    (try simp only [St.setDone, St.setBg, ↓reduceIte, Bool.false_eq_true, Bool.and_false, Bool.and_true, Bool.false_and, Bool.true_and]) <;> (repeat' split) <;> simp_all [tot_set_eq _ _ _ _ _ hi, tot_ackWs_srw', tot_ackWs_tok, b2n_true, b2n_false, srW, tokW, St.bg, onOk, onErr, selNext, afterSetErr, srAllW, nextC, roSets] <;> (try omega) <;> (try (cases hk : s.ehTok <;> cases hk2 : s.cwl <;> simp_all [b2n_true, b2n_false] <;> omega))
+  | crRelOk _ i hi =>
+    have l0 := le_tot srW _ _ _ hi
+    have l1 := le_tot tokW _ _ _ hi
+    (try simp only [St.setDone, St.setBg, ↓reduceIte, Bool.false_eq_true, Bool.and_false, Bool.and_true, Bool.false_and, Bool.true_and]) <;> (repeat' split) <;> simp_all [tot_set_eq _ _ _ _ _ hi, tot_ackWs_srw', tot_ackWs_tok, b2n_true, b2n_false, srW, tokW, St.bg, onOk, onErr, selNext, afterSetErr, srAllW, nextC, roSets] <;> (try omega) <;> (try (cases hk : s.ehTok <;> cases hk2 : s.cwl <;> simp_all [b2n_true, b2n_false] <;> omega))
+  | crRelFail _ i hi =>
+    have l0 := le_tot srW _ _ _ hi
+    have l1 := le_tot tokW _ _ _ hi
+    (try simp only [St.setDone, St.setBg, ↓reduceIte, Bool.false_eq_true, Bool.and_false, Bool.and_true, Bool.false_and, Bool.true_and]) <;> (repeat' split) <;> simp_all [tot_set_eq _ _ _ _ _ hi, tot_ackWs_srw', tot_ackWs_tok, b2n_true, b2n_false, srW, tokW, St.bg, onOk, onErr, selNext, afterSetErr, srAllW, nextC, roSets] <;> (try omega) <;> (try (cases hk : s.ehTok <;> cases hk2 : s.cwl <;> simp_all [b2n_true, b2n_false] <;> omega))
+  | srSend _ i hi he =>
+    have l0 := le_tot srW _ _ _ hi
+    have l1 := le_tot tokW _ _ _ hi
+    simp only [hm, recvs_asCoded] at he
+    rcases he with he | he <;> (try simp only [St.setDone, St.setBg, ↓reduceIte, Bool.false_eq_true, Bool.and_false, Bool.and_true, Bool.false_and, Bool.true_and]) <;> (repeat' split) <;> simp_all [tot_set_eq _ _ _ _ _ hi, tot_ackWs_srw', tot_ackWs_tok, b2n_true, b2n_false, srW, tokW, St.bg, onOk, onErr, selNext, afterSetErr, srAllW, nextC, roSets] <;> (try omega) <;> (try (cases hk : s.ehTok <;> cases hk2 : s.cwl <;> simp_all [b2n_true, b2n_false] <;> omega))
+  | srPerErr _ i hi he =>
+    have l0 := le_tot srW _ _ _ hi
+    have l1 := le_tot tokW _ _ _ hi
+    cases hk : s.ehTok <;> cases hk2 : s.cwl <;> simp only [hk, hk2, b2n_true, b2n_false] at hE k1 k2 <;> (try simp only [St.setDone, St.setBg, ↓reduceIte, Bool.false_eq_true, Bool.and_false, Bool.and_true, Bool.false_and, Bool.true_and]) <;> (repeat' split) <;> simp_all [tot_set_eq _ _ _ _ _ hi, tot_ackWs_srw', tot_ackWs_tok, b2n_true, b2n_false, srW, tokW, St.bg, onOk, onErr, selNext, afterSetErr, srAllW, nextC, roSets] <;> (try omega) <;> (try (cases hk : s.ehTok <;> cases hk2 : s.cwl <;> simp_all [b2n_true, b2n_false] <;> omega)) <;> (try (by_cases hx : s.eh = .exited <;> simp_all <;> omega))
+  | srClosed _ i hi hc =>
+    have l0 := le_tot srW _ _ _ hi
+    have l1 := le_tot tokW _ _ _ hi
+    cases hk : s.ehTok <;> cases hk2 : s.cwl <;> simp only [hk, hk2, b2n_true, b2n_false] at hE k1 k2 <;> (try simp only [St.setDone, St.setBg, ↓reduceIte, Bool.false_eq_true, Bool.and_false, Bool.and_true, Bool.false_and, Bool.true_and]) <;> (repeat' split) <;> simp_all [tot_set_eq _ _ _ _ _ hi, tot_ackWs_srw', tot_ackWs_tok, b2n_true, b2n_false, srW, tokW, St.bg, onOk, onErr, selNext, afterSetErr, srAllW, nextC, roSets] <;> (try omega) <;> (try (cases hk : s.ehTok <;> cases hk2 : s.cwl <;> simp_all [b2n_true, b2n_false] <;> omega)) <;> (try (by_cases hx : s.eh = .exited <;> simp_all <;> omega))
+  | clCheckTr _ i hi =>
+    have l0 := le_tot srW _ _ _ hi
+    have l1 := le_tot tokW _ _ _ hi
+    (try simp only [St.setDone, St.setBg, ↓reduceIte, Bool.false_eq_true, Bool.and_false, Bool.and_true, Bool.false_and, Bool.true_and]) <;> (repeat' split) <;> simp_all [tot_set_eq _ _ _ _ _ hi, tot_ackWs_srw', tot_ackWs_tok, b2n_true, b2n_false, srW, tokW, St.bg, onOk, onErr, selNext, afterSetErr, srAllW, nextC, roSets] <;> (try omega) <;> (try (cases hk : s.ehTok <;> cases hk2 : s.cwl <;> simp_all [b2n_true, b2n_false] <;> omega))
+  | clLockTr _ i hi hl =>
+    have l0 := le_tot srW _ _ _ hi
+    have l1 := le_tot tokW _ _ _ hi
+    (try simp only [St.setDone, St.setBg, ↓reduceIte, Bool.false_eq_true, Bool.and_false, Bool.and_true, Bool.false_and, Bool.true_and]) <;> (repeat' split) <;> simp_all [tot_set_eq _ _ _ _ _ hi, tot_ackWs_srw', tot_ackWs_tok, b2n_true, b2n_false, srW, tokW, St.bg, onOk, onErr, selNext, afterSetErr, srAllW, nextC, roSets] <;> (try omega) <;> (try (cases hk : s.ehTok <;> cases hk2 : s.cwl <;> simp_all [b2n_true, b2n_false] <;> omega))
+  | clBody _ i hi =>
+    have l0 := le_tot srW _ _ _ hi
+    have l1 := le_tot tokW _ _ _ hi
+    (try simp only [St.setDone, St.setBg, ↓reduceIte, Bool.false_eq_true, Bool.and_false, Bool.and_true, Bool.false_and, Bool.true_and]) <;> (repeat' split) <;> simp_all [tot_set_eq _ _ _ _ _ hi, tot_ackWs_srw', tot_ackWs_tok, b2n_true, b2n_false, srW, tokW, St.bg, onOk, onErr, selNext, afterSetErr, srAllW, nextC, roSets] <;> (try omega) <;> (try (cases hk : s.ehTok <;> cases hk2 : s.cwl <;> simp_all [b2n_true, b2n_false] <;> omega))
+  | clAcq _ i hi ht =>
+    have l0 := le_tot srW _ _ _ hi
+    have l1 := le_tot tokW _ _ _ hi
+    (try simp only [St.setDone, St.setBg, ↓reduceIte, Bool.false_eq_true, Bool.and_false, Bool.and_true, Bool.false_and, Bool.true_and]) <;> (repeat' split) <;> simp_all [tot_set_eq _ _ _ _ _ hi, tot_ackWs_srw', tot_ackWs_tok, b2n_true, b2n_false, srW, tokW, St.bg, onOk, onErr, selNext, afterSetErr, srAllW, nextC, roSets] <;> (try omega) <;> (try (cases hk : s.ehTok <;> cases hk2 : s.cwl <;> simp_all [b2n_true, b2n_false] <;> omega))
+  | clWait _ i hi hm ht =>
+    have l0 := le_tot srW _ _ _ hi
+    have l1 := le_tot tokW _ _ _ hi
+    (try simp only [St.setDone, St.setBg, ↓reduceIte, Bool.false_eq_true, Bool.and_false, Bool.and_true, Bool.false_and, Bool.true_and]) <;> (repeat' split) <;> simp_all [tot_set_eq _ _ _ _ _ hi, tot_ackWs_srw', tot_ackWs_tok, b2n_true, b2n_false, srW, tokW, St.bg, onOk, onErr, selNext, afterSetErr, srAllW, nextC, roSets] <;> (try omega) <;> (try (cases hk : s.ehTok <;> cases hk2 : s.cwl <;> simp_all [b2n_true, b2n_false] <;> omega))
+  | ehAcquire _ he ht =>
+    (try simp only [St.setDone, St.setBg, ↓reduceIte, Bool.false_eq_true, Bool.and_false, Bool.and_true, Bool.false_and, Bool.true_and]) <;> (repeat' split) <;> simp_all [tot_ackWs_srw', tot_ackWs_tok, b2n_true, b2n_false, srW, tokW, St.bg, onOk, onErr, selNext, afterSetErr, srAllW, nextC, roSets] <;> (try omega) <;> (try (cases hk : s.ehTok <;> cases hk2 : s.cwl <;> simp_all [b2n_true, b2n_false] <;> omega))
+  | ehClose _ he hc =>
+    simp only [hm, closes_asCoded] at he
+    rcases he with he | he | he <;> (try simp only [St.setDone, St.setBg, ↓reduceIte, Bool.false_eq_true, Bool.and_false, Bool.and_true, Bool.false_and, Bool.true_and]) <;> (repeat' split) <;> simp_all [tot_ackWs_srw', tot_ackWs_tok, b2n_true, b2n_false, srW, tokW, St.bg, onOk, onErr, selNext, afterSetErr, srAllW, nextC, roSets] <;> (try omega) <;> (try (cases hk : s.ehTok <;> cases hk2 : s.cwl <;> simp_all [b2n_true, b2n_false] <;> omega))
+  | ehTake _ he ht =>
+    (try simp only [St.setDone, St.setBg, ↓reduceIte, Bool.false_eq_true, Bool.and_false, Bool.and_true, Bool.false_and, Bool.true_and]) <;> (repeat' split) <;> simp_all [tot_ackWs_srw', tot_ackWs_tok, b2n_true, b2n_false, srW, tokW, St.bg, onOk, onErr, selNext, afterSetErr, srAllW, nextC, roSets] <;> (try omega) <;> (try (cases hk : s.ehTok <;> cases hk2 : s.cwl <;> simp_all [b2n_true, b2n_false] <;> omega))
+  | bgExitIdle _ b hb hc =>
+    cases b <;> (try simp only [St.setDone, St.setBg, ↓reduceIte, Bool.false_eq_true, Bool.and_false, Bool.and_true, Bool.false_and, Bool.true_and]) <;> (repeat' split) <;> simp_all [tot_ackWs_srw', tot_ackWs_tok, b2n_true, b2n_false, srW, tokW, St.bg, onOk, onErr, selNext, afterSetErr, srAllW, nextC, roSets] <;> (try omega) <;> (try (cases hk : s.ehTok <;> cases hk2 : s.cwl <;> simp_all [b2n_true, b2n_false] <;> omega))
+  | bgExitParked _ hb hc =>
+    (try simp only [St.setDone, St.setBg, ↓reduceIte, Bool.false_eq_true, Bool.and_false, Bool.and_true, Bool.false_and, Bool.true_and]) <;> (repeat' split) <;> simp_all [tot_ackWs_srw', tot_ackWs_tok, b2n_true, b2n_false, srW, tokW, St.bg, onOk, onErr, selNext, afterSetErr, srAllW, nextC, roSets] <;> (try omega) <;> (try (cases hk : s.ehTok <;> cases hk2 : s.cwl <;> simp_all [b2n_true, b2n_false] <;> omega))
+  | bgWorkCorrupt _ b w hb hk =>
+    cases b <;> (try simp only [St.setDone, St.setBg, ↓reduceIte, Bool.false_eq_true, Bool.and_false, Bool.and_true, Bool.false_and, Bool.true_and]) <;> (repeat' split) <;> simp_all [tot_ackWs_srw', tot_ackWs_tok, b2n_true, b2n_false, srW, tokW, St.bg, onOk, onErr, selNext, afterSetErr, srAllW, nextC, roSets] <;> (try omega) <;> (try (cases hk : s.ehTok <;> cases hk2 : s.cwl <;> simp_all [b2n_true, b2n_false] <;> omega))
+  | bgCommitCorrupt _ b w hb hk =>
+    cases b <;> (try simp only [St.setDone, St.setBg, ↓reduceIte, Bool.false_eq_true, Bool.and_false, Bool.and_true, Bool.false_and, Bool.true_and]) <;> (repeat' split) <;> simp_all [tot_ackWs_srw', tot_ackWs_tok, b2n_true, b2n_false, srW, tokW, St.bg, onOk, onErr, selNext, afterSetErr, srAllW, nextC, roSets] <;> (try omega) <;> (try (cases hk : s.ehTok <;> cases hk2 : s.cwl <;> simp_all [b2n_true, b2n_false] <;> omega))
+  | bgSetErrCorrupt _ b w c hb he =>
+    simp only [hm, recvs_asCoded] at he
+    rcases he with he | he <;> cases b <;> cases c <;> (try simp only [St.setDone, St.setBg, ↓reduceIte, Bool.false_eq_true, Bool.and_false, Bool.and_true, Bool.false_and, Bool.true_and]) <;> (repeat' split) <;> simp_all [tot_ackWs_srw', tot_ackWs_tok, b2n_true, b2n_false, srW, tokW, St.bg, onOk, onErr, selNext, afterSetErr, srAllW, nextC, roSets] <;> (try omega) <;> (try (cases hk : s.ehTok <;> cases hk2 : s.cwl <;> simp_all [b2n_true, b2n_false] <;> omega))
+  | bgWorkOk _ b w hb =>
+    cases b <;> (try simp only [St.setDone, St.setBg, ↓reduceIte, Bool.false_eq_true, Bool.and_false, Bool.and_true, Bool.false_and, Bool.true_and]) <;> (repeat' split) <;> simp_all [tot_ackWs_srw', tot_ackWs_tok, b2n_true, b2n_false, srW, tokW, St.bg, onOk, onErr, selNext, afterSetErr, srAllW, nextC, roSets] <;> (try omega) <;> (try (cases hk : s.ehTok <;> cases hk2 : s.cwl <;> simp_all [b2n_true, b2n_false] <;> omega))
+  | bgWorkFail _ b w hb =>
+    cases b <;> (try simp only [St.setDone, St.setBg, ↓reduceIte, Bool.false_eq_true, Bool.and_false, Bool.and_true, Bool.false_and, Bool.true_and]) <;> (repeat' split) <;> simp_all [tot_ackWs_srw', tot_ackWs_tok, b2n_true, b2n_false, srW, tokW, St.bg, onOk, onErr, selNext, afterSetErr, srAllW, nextC, roSets] <;> (try omega) <;> (try (cases hk : s.ehTok <;> cases hk2 : s.cwl <;> simp_all [b2n_true, b2n_false] <;> omega))
+  | bgCommitOk _ b w hb =>
+    cases b <;> (try simp only [St.setDone, St.setBg, ↓reduceIte, Bool.false_eq_true, Bool.and_false, Bool.and_true, Bool.false_and, Bool.true_and]) <;> (repeat' split) <;> simp_all [tot_ackWs_srw', tot_ackWs_tok, b2n_true, b2n_false, srW, tokW, St.bg, onOk, onErr, selNext, afterSetErr, srAllW, nextC, roSets] <;> (try omega) <;> (try (cases hk : s.ehTok <;> cases hk2 : s.cwl <;> simp_all [b2n_true, b2n_false] <;> omega))
+  | bgCommitFail _ b w hb =>
+    cases b <;> (try simp only [St.setDone, St.setBg, ↓reduceIte, Bool.false_eq_true, Bool.and_false, Bool.and_true, Bool.false_and, Bool.true_and]) <;> (repeat' split) <;> simp_all [tot_ackWs_srw', tot_ackWs_tok, b2n_true, b2n_false, srW, tokW, St.bg, onOk, onErr, selNext, afterSetErr, srAllW, nextC, roSets] <;> (try omega) <;> (try (cases hk : s.ehTok <;> cases hk2 : s.cwl <;> simp_all [b2n_true, b2n_false] <;> omega))
+  | bgSetErr _ b w ok c hb he =>
+    simp only [hm, recvs_asCoded] at he
+    rcases he with he | he <;> cases b <;> cases ok <;> cases c <;> (try simp only [St.setDone, St.setBg, ↓reduceIte, Bool.false_eq_true, Bool.and_false, Bool.and_true, Bool.false_and, Bool.true_and]) <;> (repeat' split) <;> simp_all [tot_ackWs_srw', tot_ackWs_tok, b2n_true, b2n_false, srW, tokW, St.bg, onOk, onErr, selNext, afterSetErr, srAllW, nextC, roSets] <;> (try omega) <;> (try (cases hk : s.ehTok <;> cases hk2 : s.cwl <;> simp_all [b2n_true, b2n_false] <;> omega))
+  | bgSetErrPer _ b w c hb he =>
+    cases b <;> cases c <;> (try simp only [St.setDone, St.setBg, ↓reduceIte, Bool.false_eq_true, Bool.and_false, Bool.and_true, Bool.false_and, Bool.true_and]) <;> (repeat' split) <;> simp_all [tot_ackWs_srw', tot_ackWs_tok, b2n_true, b2n_false, srW, tokW, St.bg, onOk, onErr, selNext, afterSetErr, srAllW, nextC, roSets] <;> (try omega) <;> (try (cases hk : s.ehTok <;> cases hk2 : s.cwl <;> simp_all [b2n_true, b2n_false] <;> omega))
+  | bgBackoff _ b w c hb =>
+    cases b <;> cases c <;> (try simp only [St.setDone, St.setBg, ↓reduceIte, Bool.false_eq_true, Bool.and_false, Bool.and_true, Bool.false_and, Bool.true_and]) <;> (repeat' split) <;> simp_all [tot_ackWs_srw', tot_ackWs_tok, b2n_true, b2n_false, srW, tokW, St.bg, onOk, onErr, selNext, afterSetErr, srAllW, nextC, roSets] <;> (try omega) <;> (try (cases hk : s.ehTok <;> cases hk2 : s.cwl <;> simp_all [b2n_true, b2n_false] <;> omega))
+  | bgLockClk _ b w hb hl =>
+    cases b <;> (try simp only [St.setDone, St.setBg, ↓reduceIte, Bool.false_eq_true, Bool.and_false, Bool.and_true, Bool.false_and, Bool.true_and]) <;> (repeat' split) <;> simp_all [tot_ackWs_srw', tot_ackWs_tok, b2n_true, b2n_false, srW, tokW, St.bg, onOk, onErr, selNext, afterSetErr, srAllW, nextC, roSets] <;> (try omega) <;> (try (cases hk : s.ehTok <;> cases hk2 : s.cwl <;> simp_all [b2n_true, b2n_false] <;> omega))
+  | bgAck _ b w hb =>
+    cases b <;> (try simp only [St.setDone, St.setBg, ↓reduceIte, Bool.false_eq_true, Bool.and_false, Bool.and_true, Bool.false_and, Bool.true_and]) <;> (repeat' split) <;> simp_all [tot_ackWs_srw', tot_ackWs_tok, b2n_true, b2n_false, srW, tokW, St.bg, onOk, onErr, selNext, afterSetErr, srAllW, nextC, roSets] <;> (try omega) <;> (try (cases hk : s.ehTok <;> cases hk2 : s.cwl <;> simp_all [b2n_true, b2n_false] <;> omega))
+  | bgExit _ b w ph hb hx =>
+    cases b <;> cases ph <;> (try simp only [St.setDone, St.setBg, ↓reduceIte, Bool.false_eq_true, Bool.and_false, Bool.and_true, Bool.false_and, Bool.true_and]) <;> (repeat' split) <;> simp_all [tot_ackWs_srw', tot_ackWs_tok, b2n_true, b2n_false, srW, tokW, St.bg, onOk, onErr, selNext, afterSetErr, srAllW, nextC, roSets] <;> (try omega) <;> (try (cases hk : s.ehTok <;> cases hk2 : s.cwl <;> simp_all [b2n_true, b2n_false] <;> omega))
+
+/-- exact accounting in every run of a configuration with the hand-over of 832d000 -/
+def ExactH (s : St) : Prop := TokE s ∧ HInv s
+
+theorem step_exactH (cfg : Cfg) (h3 : Fixed3 cfg) (hm : cfg.m = .asCoded) (hh : cfg.HandsOver)
+    (h4 : cfg.setReadOnlyReleasesOnClose = true) (s t : St) (f : Bool) (h : Step cfg f s t) (inv : ExactH s) :
+    ExactH t := by
+  obtain ⟨hE, hH⟩ := inv
+  refine ⟨step_tokE s t f cfg h3 (Or.inl h4) (fun hp => ?_) (fun hc => (hH.1 (hH.2.2 hc) (by rw [hc]; simp)).1) h hE,
+    step_hinv s t f cfg hm hh h4 hE h hH⟩
+  have := hH.2.1
+  cases he : s.ehTok with
+  | true => rfl
+  | false => rw [he] at this; simp only [b2n_false] at this; omega
 
 end GoLevel.Locks
